@@ -430,6 +430,33 @@ fn exec_c<C: Suite>(scen: &Scenario) -> Exec {
             rep.extra_shapes.push(format!("{}|pair|{size}|{a}|{b}", scen.suite));
         }
     }
+    // three altered items whose errors cancel if the blinders are in ARITHMETIC PROGRESSION over the queue positions (or all equal):
+    // responses changed by +(k-j)e, -(k-i)e, +(j-i)e at positions i < j < k. Independent blinders reject this like any other batch
+    // with invalid items.
+    if size >= 3 {
+        let mut triples: Vec<(usize, usize, usize)> = vec![(0, 1, 2), (size - 3, size - 2, size - 1), (0, size / 2, size - 1)];
+        let three = p.subset(size, 3);
+        triples.push((three[0], three[1], three[2]));
+        triples.retain(|(i, j, k)| i < j && j < k);
+        triples.dedup();
+        for (i, j, k) in triples {
+            let e = sc_random_nonzero::<C>(&mut p);
+            let m = |x: usize| sc_from_u64::<C>(x as u64) * e;
+            let (Some(a), Some(b), Some(c)) = (shift_z::<C>(&items[i], m(k - j)), shift_z::<C>(&items[j], neg::<C>(m(k - i))), shift_z::<C>(&items[k], m(j - i))) else { continue };
+            if single_ok(&a) || single_ok(&b) || single_ok(&c) {
+                continue;
+            }
+            let mut bt = items.clone();
+            bt[i] = a;
+            bt[j] = b;
+            bt[k] = c;
+            match batch_verdict::<C>(&bt, scen.seed, scen.run, &format!("triple/{i}/{j}/{k}"), &mut rep) {
+                Err(e) => return Exec::Violation(viol("C19.verifier_streams_disagree", format!("cancelling triple at ({i},{j},{k}) of {size}: {e}")), rep),
+                Ok(true) => return Exec::Violation(viol("C19.cancelling_pair_accepted", format!("three altered items at positions ({i},{j},{k}) of {size} whose errors cancel under blinders in arithmetic progression were accepted")), rep),
+                Ok(false) => rep.probe("cancel_triple_rejected"),
+            }
+        }
+    }
     // crafted verifier randomness: blinders with special bit patterns (1, 2^k, q-1, alternating bits ...) exercise
     // the multiscalar multiplication on scalars that random sampling never produces
     {
